@@ -99,7 +99,9 @@ def font (req : Json) : R Reply := do
       ("ligCount", listJ (pairJ Json.str natJ) (ligCounts i P)),
       ("ctx", Json.mkObj [("mark", ctxJ i P K X.markCtx), ("mkmk", ctxJ i P K X.mkmkCtx)]),
       ("wf", Json.bool (wf i)), ("wf0", Json.bool (wf0 i)),
-      ("eligible", natJ ((allQueries i K).filter (fun q => eligible i q.1 q.2.1 q.2.2)).length)]
+      ("eligible", natJ ((allQueries i K).filter (fun q => eligible i q.1 q.2.1 q.2.2)).length),
+      ("ctxEligible", natJ (i.glyphs.flatMap (fun gb => gb.anchors.flatMap (fun sb => i.glyphs.flatMap (fun gm =>
+        (none :: (List.range K).map some).filter (fun c => ctxEligible i gb gm c sb))))).length)]
     match oerr with
     | some _ => return { model, holds := false }
     | none =>
@@ -114,6 +116,8 @@ def font (req : Json) : R Reply := do
         let refs ← asList (asList asEntry) (← field (← field oc f) "ref")
         for t in refs do
           ok := ok && holdsCtxOffset i t
+        let disp ← asList (asPair asStr (asList (asPair asStr asStr))) (← field (← field oc f) "disp")
+        ok := ok && holdsCtxComplete i K f refs disp
       return { model, holds := ok }
 
 def handle (op : String) (req : Json) : R Reply :=
